@@ -166,7 +166,11 @@ class Ctx:
         return self.tier == "quick"
 
     def pick(self, quick, thorough):
-        return quick if self.tier == "quick" else thorough
+        v = quick if self.tier == "quick" else thorough
+        scale = os.environ.get("VERIF_SCALE")  # development aid only
+        if scale and isinstance(v, int):
+            v = max(1, int(v * float(scale)))
+        return v
 
     def cleanup(self):
         shutil.rmtree(self.work, ignore_errors=True)
